@@ -166,6 +166,10 @@ def string_enum(rng, nvariants=None, *, allow_default=True, allow_disabled=True,
         it.variants.append(v)
     if it.tparams and not any(f.ty == "G0" for v in it.variants for f in v.fields):
         it.tparams = 0
+    if it.tparams and rng.random() < 0.5:
+        it.where_clause = True     # bounds written in a where-clause instead of inline
+    if rng.random() < 0.1:
+        it.attr_delims = rng.choice([[1], [2], [0, 1, 2], [1, 0]])      # #[strum{..}] / #[strum[..]] instead of #[strum(..)]
     if rng.random() < 0.12:
         it.via_macro = True        # the enum comes out of a macro_rules! expansion, attribute values passed in as fragments
     return it
